@@ -588,13 +588,28 @@ func (a *Adv) DoubleSpendProbes() int {
 				}
 			}
 		}
-		if fc.ProofHeight >= a.Child && fc.RevisionNumber < types.MaxRevisionNumber {
+		if fc.ProofHeight >= a.Child && fc.RevisionNumber < types.MaxRevisionNumber-10 {
 			rev := fc
-			rev.RevisionNumber++
+			rev.RevisionNumber += 5
 			x := types.V2Transaction{FileContractRevisions: []types.V2FileContractRevision{{Parent: res.Parent.Copy(), Revision: rev}}}
 			SignV2(a.CS, &x, SignOpts{})
 			if blk, ok := a.withV2(CloneBlock(a.Honest), x); ok {
 				if a.emit(blk, "revise-after-resolve-same-block/v2", "reject", nil, nil) {
+					n++
+				}
+			}
+		}
+		// a second renewal of the same contract, funded entirely by rollover (no inputs needed)
+		if !fc.RenterOutput.Value.IsZero() {
+			nc := types.V2FileContract{ProofHeight: a.Child + 3, ExpirationHeight: a.Child + 6, HostOutput: types.SiacoinOutput{Value: types.NewCurrency64(1), Address: fc.HostOutput.Address},
+				RenterPublicKey: fc.RenterPublicKey, HostPublicKey: fc.HostPublicKey}
+			ren := &types.V2FileContractRenewal{
+				FinalRenterOutput: types.SiacoinOutput{Value: fc.RenterOutput.Value.Sub(types.NewCurrency64(1)), Address: fc.RenterOutput.Address},
+				FinalHostOutput:   fc.HostOutput, RenterRollover: types.NewCurrency64(1), NewContract: nc}
+			x := types.V2Transaction{FileContractResolutions: []types.V2FileContractResolution{{Parent: res.Parent.Copy(), Resolution: ren}}}
+			SignV2(a.CS, &x, SignOpts{})
+			if blk, ok := a.withV2(CloneBlock(a.Honest), x); ok {
+				if a.emit(blk, "second-resolution-other-txn/v2-renewal", "reject", nil, nil) {
 					n++
 				}
 			}
